@@ -12,7 +12,7 @@ import (
 
 func init() {
 	register("C09", runC09, propMeta{
-		Explanation: "Decides the recover discipline and the absence of engine-level panics and unbounded loops, for all rule texts and injected data: (R1) RuleEntity.Execute — the only door from the engine into the interpreter — and the four call/assignment evaluators each register, before anything that can panic, a deferred literal that calls recover() and on a non-nil result stores a newly created error into the function's error result (the rule entry also clears the returned-flag); (R2) every goroutine literal of the product calls nothing but panic-safe workers, addResult, fmt.Sprintf, errors.New, append, mutex and WaitGroup operations, and contains no indexing, slicing, unchecked type assertion or division, so a goroutine cannot die with an unrecovered panic; (R3) every Evaluate/Execute of the interpreter is called only from package base, except RuleEntity.Execute; (R4) in the engine a value looked up with comma-ok is never used on the miss edge, every constant or len-1 index into a rule list is dominated by a length test that implies it is in range, counted indexes stay below the len they are compared with, the N-M windows are dominated by their parameter checks, and the nil-able pool master is guarded (C16-Q1); (R5) loop inventory over base, core, context, iter, engine, builder and tool: every loop is a range loop, a counted loop with a +1 counter compared to a bound, the iterator loop whose Key() advances the cursor by one and whose Next() is cursor < length, the ForStmt loop in which every iteration increments a counter and returns an error beyond maxExecuteNum, or one of two named loops (getGengine's wait loop — C17; tool.BinarySearch, whose every iteration returns or moves low/high past mid); (R6) WaitGroup counts agree with the goroutines started (A4) on one snapshot (C07-U1), so Wait cannot hang or panic; (R7) collected errors always surface (every execute method); (R8) the lock-order graph of the product is acyclic and no pool lock is held while rules run. (R9) a mutex locked without a covering deferred unlock is released on every return and is not held across anything that can fault on rule-controlled data (a call into reflect, through an interface or a function value, an explicit panic, an unchecked type assertion, directly or in module callees), so a recovered fault cannot leave it locked. (R10) in MapVar.Evaluate reflect.Zero stands in only for the absent key of a map, never for an index outside a slice or array. Not decided: termination of injected host functions (assumed by the property); Go-fatal conditions recover cannot catch (stack exhaustion, concurrent map writes on host data). (R11) the value of an if / else-if / for condition is tested through reflect's Bool() or under a kind test whose other edge returns an error: a non-boolean condition is a fault, never 'false'. (R12) ReturnStatement.Evaluate says 'returned' only where the error of its expression is known to be nil. (R13) in every function that calls recover(), each way on from a non-nil recovered value stores a new error into an error variable of the enclosing function.",
+		Explanation: "Decides the recover discipline and the absence of engine-level panics and unbounded loops, for all rule texts and injected data: (R1) RuleEntity.Execute — the only door from the engine into the interpreter — and the four call/assignment evaluators each register, before anything that can panic, a deferred literal that calls recover() and on a non-nil result stores a newly created error into the function's error result (the rule entry also clears the returned-flag); (R2) every goroutine literal of the product calls nothing but panic-safe workers, addResult, fmt.Sprintf, errors.New, append, mutex and WaitGroup operations, and contains no indexing, slicing, unchecked type assertion or division, so a goroutine cannot die with an unrecovered panic; (R3) every Evaluate/Execute of the interpreter is called only from package base, except RuleEntity.Execute; (R4) in the engine a value looked up with comma-ok is never used on the miss edge, every constant or len-1 index into a rule list is dominated by a length test that implies it is in range, counted indexes stay below the len they are compared with, the N-M windows are dominated by their parameter checks, and the nil-able pool master is guarded (C16-Q1); (R5) loop inventory over base, core, context, iter, engine, builder and tool: every loop is a range loop, a counted loop with a +1 counter compared to a bound, the iterator loop whose Key() advances the cursor by one and whose Next() is cursor < length, the ForStmt loop in which every iteration increments a counter and returns an error beyond maxExecuteNum, or one of two named loops (getGengine's wait loop — C17; tool.BinarySearch, whose every iteration returns or moves low/high past mid); (R6) WaitGroup counts agree with the goroutines started (A4) on one snapshot (C07-U1), so Wait cannot hang or panic; (R7) collected errors always surface (every execute method); (R8) the lock-order graph of the product is acyclic and no pool lock is held while rules run. (R9) a mutex locked without a covering deferred unlock is released on every return and is not held across anything that can fault on rule-controlled data (a call into reflect, through an interface or a function value, an explicit panic, an unchecked type assertion, directly or in module callees), so a recovered fault cannot leave it locked. (R10) in MapVar.Evaluate reflect.Zero stands in only for the absent key of a map, never for an index outside a slice or array. Not decided: termination of injected host functions (assumed by the property); Go-fatal conditions recover cannot catch (stack exhaustion, concurrent map writes on host data). (R11) the value of an if / else-if / for condition is tested through reflect's Bool() or under a kind test whose other edge returns an error: a non-boolean condition is a fault, never 'false'. (R12) ReturnStatement.Evaluate says 'returned' only where the error of its expression is known to be nil. (R13) in every function that calls recover(), each way on from a non-nil recovered value stores a new error into an error variable of the enclosing function. The bound Next() compares the cursor with is a number or key list stored in the iterator when NewInter made it and stored by nothing else, so a body that grows the ranged collection cannot keep a forRange running.",
 		Assumptions: []string{"injected functions terminate", "recover() catches every panic raised by reflect and by rule evaluation"},
 		Trusted:     commonTrusted,
 	})
@@ -508,6 +508,7 @@ func (c *Ctx) ruleLoopInventory(rule string) {
 	}
 	c.Min(rule, 40)
 	// the iterator contract (S4)
+	boundField := map[string]bool{}
 	for _, tn := range []string{"sliceIter", "mapIter", "dmIter"} {
 		key := c.Fn("internal/iter", tn, "Key")
 		next := c.Fn("internal/iter", tn, "Next")
@@ -543,17 +544,51 @@ func (c *Ctx) ruleLoopInventory(rule string) {
 		// every path returning a valid key passes the advance exactly once
 		c.Check(rule, "iter."+tn+".Key#advances-by-one", adv == 1 && okAdv, key.Pos(), "Key() must advance the cursor by exactly one")
 		nx := c.Index(next)
-		okNext := false
+		okNext, okBound := false, true
 		eachInstr(next, func(in ssa.Instruction) {
 			if r, ok := in.(*ssa.Return); ok {
 				if bo, ok := nx.Origin(r.Results[0]).(*ssa.BinOp); ok && bo.Op == token.LSS {
 					if _, is := nx.isFieldLoad(bo.X, tn, "cur"); is {
 						okNext = true
+						// the length is the one taken when the iterator was made: a number or a key list
+						// held in the iterator, not a question put to the live collection on every pass
+						// (a body that appends to the ranged slice would then never reach the end)
+						fixed := false
+						y := nx.Origin(bo.Y)
+						if args, isLen := builtinCall(y, "len"); isLen {
+							y = nx.Origin(args[0])
+						}
+						if ld, isLd := y.(*ssa.UnOp); isLd && ld.Op == token.MUL {
+							if fa, isFA := ld.X.(*ssa.FieldAddr); isFA && structName(fa.X.Type()) == tn && fieldOf(fa).Name() != "cur" {
+								switch fieldOf(fa).Type().Underlying().(type) {
+								case *types.Basic, *types.Slice:
+									fixed = true
+									boundField[tn+"."+fieldOf(fa).Name()] = true
+								}
+							}
+						}
+						if !fixed {
+							okBound = false
+						}
 					}
 				}
 			}
 		})
 		c.Check(rule, "iter."+tn+".Next#cursor-below-length", okNext, next.Pos(), "Next() must be cursor < length")
+		c.Check(rule, "iter."+tn+".Next#length-fixed-at-creation", okNext && okBound, next.Pos(), "the bound Next() compares the cursor with must be a number or key list stored in the iterator when it was made (a loop body can grow the ranged collection)")
+	}
+	// ... and nothing but the constructor stores that bound
+	for _, f := range c.AllFns {
+		if f.Pkg == nil || f.Pkg.Pkg.Path() != pIter || rootOf(f).Name() == "NewInter" {
+			continue
+		}
+		eachInstr(f, func(in ssa.Instruction) {
+			if st, ok := in.(*ssa.Store); ok {
+				if fa, ok := st.Addr.(*ssa.FieldAddr); ok && boundField[structName(fa.X.Type())+"."+fieldOf(fa).Name()] {
+					c.Check(rule, fnName(f)+"#bound-rewritten", false, in.Pos(), "the bound of an iterator (%s) is stored again after the iterator was made", fieldOf(fa).Name())
+				}
+			}
+		})
 	}
 }
 
